@@ -73,6 +73,9 @@ def run_property(prop, tier, seed, quiet=False, only_key=None):
             return 2
     report.write_evidence(prop, tier, seed, ctx, info.get('explanation', ''), wall, nviol, nknown, extra,
                           info.get('exhaustive', False), info.get('trusted_base'))
+    if os.environ.get('PSA_LIST'):
+        for o in ctx.obs:
+            print(f"  [{'ok' if o.ok else 'KNOWN' if o.known else 'VIOL'}] {o.rule} {o.func}:{o.line} {o.instance} :: {o.fact[:160]}")
     if not quiet:
         rules = {}
         for o in ctx.obs:
